@@ -164,4 +164,8 @@ theorem segments_compact (a b c : Bytes) (ha : ∀ x ∈ a, x ≠ 46) (hb : ∀ 
   unfold segments
   rw [splitDot_append a _ ha, splitDot_append b _ hb, splitDot_nodot c hc]
 
+theorem trim_space_cons (a : Bytes) : trimLeftSpace (32 :: a) = trimLeftSpace a := by
+  unfold trimLeftSpace
+  simp [trimN, stripSpace, spaceSeqs, List.findSome?]
+
 end Nuts.C17.Framing
